@@ -199,8 +199,10 @@ def run_driver(cmd, lines, timeout, big_stack=False):
     """feed request lines to a driver; returns (response lines, returncode or 'timeout')"""
     data = ('\n'.join(lines) + '\n').encode()
     try:
-        p = subprocess.run(cmd, input=data, capture_output=True, timeout=timeout, preexec_fn=_big_stack if big_stack else None)
-        return p.stdout.decode('utf-8', 'replace').split('\n')[:-1], p.returncode
+        env = dict(os.environ, PICILISP_VERIF_WATCHDOG=os.environ.get('PICILISP_VERIF_WATCHDOG', '90'))
+        p = subprocess.run(cmd, input=data, capture_output=True, timeout=timeout, preexec_fn=_big_stack if big_stack else None, env=env)
+        # status 3: the real driver's watchdog — one request did not return (a hang of the interpreter)
+        return p.stdout.decode('utf-8', 'replace').split('\n')[:-1], ('timeout' if p.returncode == 3 and cmd[0] == HOOKED_BIN else p.returncode)
     except subprocess.TimeoutExpired as e:
         out = (e.stdout or b'').decode('utf-8', 'replace').split('\n')
         return out[:-1], 'timeout'
@@ -213,6 +215,8 @@ def model_cmd():
     return [MODEL_BIN, os.path.join(REPO, 'src')]
 
 
+MAX_HANGS_PER_WORKER = 3
+
 def run_sessions(cmd, sessions, timeout, workers=12, big_stack=False):
     """sessions: list of lists of request lines, each session self-contained (starts with `new`/`p new`).
     Returns a list (per session) of response-line lists; a session whose driver died or hung gets
@@ -224,7 +228,14 @@ def run_sessions(cmd, sessions, timeout, workers=12, big_stack=False):
 
     def work(idxs):
         pending = list(idxs)
+        hangs = 0
         while pending:
+            if hangs >= MAX_HANGS_PER_WORKER:
+                # the implementation hangs again and again (only seen on broken trees): the sessions already recorded as
+                # hung are reported; the rest of this worker's share is not run, so that the check ends in bounded time
+                for i in pending:
+                    results[i] = ['DRIVER-SKIPPED after repeated hangs']
+                break
             lines = []
             for i in pending:
                 lines += sessions[i]
@@ -237,6 +248,8 @@ def run_sessions(cmd, sessions, timeout, workers=12, big_stack=False):
                 if len(got) < need:
                     results[i] = got + [f'DRIVER-DIED {rc}']
                     died_at = k
+                    if rc == 'timeout':
+                        hangs += 1
                     break
                 results[i] = got
                 pos += need
